@@ -8,7 +8,7 @@
 package client
 
 //@ func Reserve
-//@ prop C11
+//@ prop C11 C08
 //@ ensures result1 == nil ==> result0 != nil
 //@ ensures result1 == nil ==> called(ReadMsg, 0) && ret(ReadMsg, 0, 0) == nil && ret(GetType, 0, 0) == pbv2.HopMessage_STATUS &&
 //@         ret(GetStatus, 0, 0) == pbv2.Status_OK && ret(GetReservation, 0, 0) != nil
